@@ -16,6 +16,7 @@ import KojenVerif.Model.Vpp
 import KojenVerif.Model.Uml
 import KojenVerif.Lemmas.EngineWF
 import KojenVerif.Lemmas.EngineNestedWF
+import KojenVerif.Lemmas.EngineProto
 /-
   Line-protocol driver: one JSON object per input line, one JSON object per output line.
   Run with `lake env lean --run Driver/Main.lean`.  The harness pipes the same inputs to the
@@ -628,6 +629,8 @@ def handle (j : Json) : Except String Json := do
     let mut pgtAlt := 0
     let mut pstBlocks := 0
     let mut pstOk := 0
+    let mut pblocks := 0
+    let mut pblocksOk := 0
     for items0 in files do
       let items := Spec.load (globals ++ st0) items0
       for it in items do
@@ -639,6 +642,9 @@ def handle (j : Json) : Except String Json := do
           if nameKinds.contains k then
             blocks := blocks + 1
             if Engine.blockOKB (Spec.elements m k) body then blocksOk := blocksOk + 1
+          else if k == .struct || k == .protomsg || k == .msg then
+            pblocks := pblocks + 1
+            if Engine.blockOKPB (Spec.elements m k) body then pblocksOk := pblocksOk + 1
         | .pst _ body =>
           pstBlocks := pstBlocks + 1
           if Engine.pstOKB t body then pstOk := pstOk + 1
@@ -671,7 +677,8 @@ def handle (j : Json) : Except String Json := do
     pure (Json.mkObj [("user_items", n uItems), ("user_items_ok", n uOk), ("blocks", n blocks), ("blocks_ok", n blocksOk),
                       ("chunks", n chunks), ("chunks_ok", n chunksOk),
                       ("pgt_lines", n pgtLines), ("pgt_lines_ok", n pgtOk), ("pgt_lines_with_alternative", n pgtAlt),
-                      ("pst_blocks", n pstBlocks), ("pst_blocks_ok", n pstOk)])
+                      ("pst_blocks", n pstBlocks), ("pst_blocks_ok", n pstOk),
+                      ("struct_blocks", n pblocks), ("struct_blocks_ok", n pblocksOk)])
   | "vpp" => do
     let rows3 (k : String) : Except String (List (List Str)) := do
       (← (← j.getObjVal? k).getArr?).toList.mapM asStrs
